@@ -265,6 +265,12 @@ func (v *Vue) parseObjectPairs(ctx VueContext, content string, classObject bool)
 			}
 		}
 
+		// A nil value contributes nothing (it would print as "<nil>")
+		if val == nil {
+			pairs = append(pairs, "")
+			continue
+		}
+
 		// Store both key and resolved value
 		pairs = append(pairs, fmt.Sprintf("%s:%v", key, val))
 	}
@@ -289,10 +295,11 @@ func (v *Vue) splitObjectItems(content string) []string {
 		case ch == quoteChar && inQuotes:
 			inQuotes = false
 			current.WriteRune(ch)
-		case ch == '{' && !inQuotes:
+		case (ch == '{' || ch == '(' || ch == '[') && !inQuotes:
+			// a comma inside a nested object, a call's argument list or an index belongs to the value
 			inBrackets++
 			current.WriteRune(ch)
-		case ch == '}' && !inQuotes:
+		case (ch == '}' || ch == ')' || ch == ']') && !inQuotes:
 			inBrackets--
 			current.WriteRune(ch)
 		case ch == ',' && !inQuotes && inBrackets == 0:
